@@ -16,7 +16,7 @@ import (
 func init() {
 	register(&Property{
 		ID:          "C05",
-		Explanation: "R1 (lock discipline): state, until, the ratio controller and lastCheck are written only with the breaker's lock held exclusively, and the admission decision for non-standby states reads them under the exclusive lock. R2 (transition relation): a finite-domain abstract interpretation of the state field (set of possible states at each point, refined on `state == const` edges of CURRENT loads only — a Lock() or a store invalidates earlier loads — with callee analysis of the state setter) extracts, for every store of the state in every function that takes the lock, the set of (pre-state, new-state) pairs for ALL pre-states; it must be a subset of {standby->tripped, recovering->tripped, tripped->recovering, recovering->standby}, no self-loop. R3 (shielding): at every return of the admission routine that lets the request through the abstract state excludes 'tripped'; the only transition out of tripped is reachable only on an edge, evaluated under the exclusive lock, whose time relation has normal form now - until >= 0, and recovering->standby only on now - until > 0. R4: the state setter stores its until argument unchanged; at the trip site it is now + fallbackDuration, at the recovering site now + recoveryDuration with now = the clock read at that moment. R5: ServeHTTP runs the fallback exactly on the admission routine's true edge and the wrapped handler otherwise.",
+		Explanation: "R1 (lock discipline): state, until, the ratio controller and lastCheck are written only with the breaker's lock held exclusively, and the admission decision for non-standby states reads them under the exclusive lock. R2 (transition relation): a finite-domain abstract interpretation of the state field (set of possible states at each point, refined on `state == const` edges of CURRENT loads only — a Lock() or a store invalidates earlier loads — with callee analysis of the state setter) extracts, for every store of the state in every function that takes the lock, the set of (pre-state, new-state) pairs for ALL pre-states; it must be a subset of {standby->tripped, recovering->tripped, tripped->recovering, recovering->standby}, no self-loop. R3 (shielding): at every return of the admission routine that lets the request through the abstract state excludes 'tripped'; the only transition out of tripped is reachable only on an edge, evaluated under the exclusive lock, whose time relation has normal form now - until >= 0, and recovering->standby only on now - until > 0. R4: the state setter stores its until argument unchanged; at the trip site it is now + fallbackDuration, at the recovering site now + recoveryDuration with now = the clock read at that moment. R5: ServeHTTP runs the fallback exactly on the admission routine's true edge and the wrapped handler otherwise. R3 also rejects deadline comparisons made through integer timestamps (Unix/UnixNano/UnixMilli/UnixMicro: wrap outside 1678..2262 or truncate). R6 (liveness of the lock protocol, = C09.R4/R3): no Lock on a mutex that is in the must-lockset (RLock when held exclusively), including through String() of a %v-formatted receiver handed to a logger; every acquisition in package cbreaker is released on every path.",
 		NotDecided: []string{
 			"timing at real clocks: a request admitted by the read-locked fast path an instant before the trip counts as 'arrived before'",
 		},
@@ -25,7 +25,7 @@ func init() {
 	})
 	register(&Property{
 		ID:          "C12",
-		Explanation: "The statement gives the formulas, so the guard's algebraic normal form is the property. R1: in the ratio controller the allow edge is exactly (allowed+1)/(allowed+denied+1) < 0.5*(now-start)/duration — both sides are rebuilt from SSA with the helper functions inlined and compared as rational functions (so 0.5/d*e, e/(2d) coincide), strictly, with the zero-denominator guard on that same denominator. R2: on the allow edge exactly one allowed++ and the result true, on the other edge exactly one denied++ and false (event counting over all paths). R3: a fresh controller (constructor: counters zero, start = now, duration = its argument) is created at, and only at, the tripped->recovering transition site, with the same recoveryDuration that defines until there, and stored into the breaker; the controller's counters are only touched under the breaker's exclusive lock. R4: recovering->standby happens on the now > until edge, recovering->tripped only through the condition check (C05.R2/R3, C18.R2 re-used).",
+		Explanation: "The statement gives the formulas, so the guard's algebraic normal form is the property. R1: in the ratio controller the allow edge is exactly (allowed+1)/(allowed+denied+1) < 0.5*(now-start)/duration — both sides are rebuilt from SSA with the helper functions inlined and compared as rational functions (so 0.5/d*e, e/(2d) coincide), strictly, with the zero-denominator guard on that same denominator. R2: on the allow edge exactly one allowed++ and the result true, on the other edge exactly one denied++ and false (event counting over all paths). R3: a fresh controller (constructor: counters zero, start = now, duration = its argument) is created at, and only at, the tripped->recovering transition site, with the same recoveryDuration that defines until there, and stored into the breaker; the controller's counters are only touched under the breaker's exclusive lock. R4: recovering->standby happens on the now > until edge, recovering->tripped only through the condition check (C05.R2/R3, C18.R2 re-used). R5 (= C09.R3/R4): every lock acquisition in package cbreaker is released on every path to a return and no mutex is re-acquired while held.",
 		NotDecided: []string{
 			"real-clock granularity; the inductive step 'ratio after a refusal <= ramp' is a paper argument over the checked guard (recorded here, not machine-checked)",
 		},
@@ -34,7 +34,7 @@ func init() {
 	})
 	register(&Property{
 		ID:          "C18",
-		Explanation: "R1: the predicate.Def literal binds all eight operators; for each comparison operator the ORDERING SET of the predicate it constructs (the subset of {<,=,>} between the metric and the constant on which it is true) is derived by abstract evaluation through intLT/float64GT/..., not(), the l(c)||e(c) closures and the type switches, for int and float64 mappers alike, and must be EQ={=}, NEQ={<,>}, LT={<}, LE={<,=}, GT={>}, GE={>,=}; and/or are the short-circuit folds; the function map binds NetworkErrorRatio, ResponseCodeRatio(a,b,c,d) and LatencyAtQuantileMS(q) to closures over the breaker's metrics methods of the same name and argument order, the latter divided by one millisecond. R2: in the check routine the trip site is on the true edge of condition(c), the false edge returns without a state store; the evaluation is reachable only past a re-test of now against lastCheck made AFTER the exclusive lock was taken, and lastCheck := now + checkPeriod precedes it. R3: after the trip every path passes metrics.Reset() before returning; serve records the response then runs the check on every normal path. R4: the side-effect launcher is called only from the state setter, with onTripped exactly on the state==tripped edge and onStandby on the state==standby edge; it starts exactly one goroutine calling Exec once, guarded by nil; with no self-loop transitions (C05.R2) every launch corresponds to one real transition.",
+		Explanation: "R1: the predicate.Def literal binds all eight operators; for each comparison operator the ORDERING SET of the predicate it constructs (the subset of {<,=,>} between the metric and the constant on which it is true) is derived by abstract evaluation through intLT/float64GT/..., not(), the l(c)||e(c) closures and the type switches, for int and float64 mappers alike, and must be EQ={=}, NEQ={<,>}, LT={<}, LE={<,=}, GT={>}, GE={>,=}; and/or are the short-circuit folds; the function map binds NetworkErrorRatio, ResponseCodeRatio(a,b,c,d) and LatencyAtQuantileMS(q) to closures over the breaker's metrics methods of the same name and argument order, the latter divided by one millisecond. R2: in the check routine the trip site is on the true edge of condition(c), the false edge returns without a state store; the evaluation is reachable only past a re-test of now against lastCheck made AFTER the exclusive lock was taken, and lastCheck := now + checkPeriod precedes it. R3: after the trip every path passes metrics.Reset() before returning; serve records the response then runs the check on every normal path. R4: the side-effect launcher is called only from the state setter, with onTripped exactly on the state==tripped edge and onStandby on the state==standby edge; it starts exactly one goroutine calling Exec once, guarded by nil; with no self-loop transitions (C05.R2) every launch corresponds to one real transition. R3 also requires the reset to be complete: RTMetrics.Reset resets or replaces every counter, the per-code map and the histogram on every path; RollingCounter.Reset zeroes and RollingHDRHistogram.Reset resets every element in a loop over the whole slice that is left only when exhausted. R5 (= C09.R1 for RTMetrics): every pair of conflicting accesses to the metrics shares an excluding lock, so no recorded response is lost.",
 		NotDecided: []string{
 			"numerical values of the ratios / quantiles (C17, hdrhistogram); parsing of the expression text (vulcand/predicate, trusted)",
 		},
